@@ -470,7 +470,7 @@ class BehavioralRTLIRTypeCheckVisitorL1( bir.BehavioralRTLIRNodeVisitor ):
     if value < 0:
       return math.ceil(math.log2(abs(value)))
     else:
-      return math.ceil(math.log2(value+1))
+      return value.bit_length()
 
 #-------------------------------------------------------------------------
 # Enforce types for all terms whose types are inferred (implicit)
